@@ -931,7 +931,33 @@ def unit_bounded_repeats(U):
                         fails.append(dict(case, expected={key: exp, "features": 1}, observed={key: got, "features": db.count_features_of_type()}))
                 except Exception as e:
                     fails.append(dict(case, expected="merged", observed=repr(e)))
-    U.bounded_result("C05.bounded.repeats_within_a_line", "'merge' stores each value of the union once, whichever line repeats it", "5 value-list pairs x GFF3 / GTF x create_db / update", cases, fails)
+    # a key WITHOUT values (a flag such as ';partial', GTF 'partial "";') on either line is a key of the union
+    for fmt in ("gff3", "gtf"):
+        for flag_on in ("stored", "arriving", "both"):
+            for via in ("create_db", "update"):
+                cases += 1
+                if fmt == "gff3":
+                    mkl = lambda flag, note: "c\ts\tgene\t1\t9\t.\t+\t.\tID=k;%sNote=%s" % ("partial;" if flag else "", note)
+                    kw, fid = {}, "k"
+                else:
+                    mkl = lambda flag, note: "c\ts\texon\t1\t9\t.\t+\t.\tgene_id \"g\"; transcript_id \"t\"; %snote \"%s\";" % ('partial ""; ' if flag else "", note)
+                    kw, fid = {"id_spec": {"exon": "transcript_id"}, "disable_infer_genes": True, "disable_infer_transcripts": True}, "t"
+                l1, l2 = mkl(flag_on in ("stored", "both"), "a"), mkl(flag_on in ("arriving", "both"), "b")
+                case = {"format": fmt, "stored line": l1, "arriving line": l2, "via": via}
+                try:
+                    if via == "create_db":
+                        db = gffutils.create_db(l1 + "\n" + l2 + "\n", ":memory:", from_string=True, merge_strategy="merge", **kw)
+                    else:
+                        db = gffutils.create_db(l1 + "\n", ":memory:", from_string=True, merge_strategy="merge", **kw)
+                        db.update(l2 + "\n", from_string=True, merge_strategy="merge", make_backup=False, **kw)
+                    at = db[fid].attributes
+                    got = {k: sorted(x for x in at[k] if x != "") for k in at.keys()}
+                    nk = "Note" if fmt == "gff3" else "note"
+                    if "partial" not in got or got["partial"] != [] or got.get(nk) != ["a", "b"]:
+                        fails.append(dict(case, expected={"partial": [], nk: ["a", "b"]}, observed=got))
+                except Exception as e:
+                    fails.append(dict(case, expected="merged", observed=repr(e)))
+    U.bounded_result("C05.bounded.repeats_within_a_line", "'merge' stores each value of the union once, whichever line repeats it", "5 value-list pairs x GFF3 / GTF x create_db / update; a value-less key on the stored / arriving / both lines", cases, fails)
 
 def unit_bounded_numbered_keys(U):
     """Bounded: the key handed out for a later arrival is '<key>_<n>' of the COLLIDING key, whatever that key looks like -
